@@ -360,6 +360,25 @@ def run(ctx, P, which):
                   "after a change the new run's start is `%s`, expected pos - wsize + 1" % show(ns), line_of(sp.exit[1]))
     if nW < 2:
         ctx.fail(P + ".W", "%s:change_sites:floor" % name, "fewer than 2 minimiser-change emission paths found", line_of(loop))
+    # a run's start is fixed when the run opens: clean paths that close nothing leave it (and an open run's value) alone
+    bad_st = None
+    n_quiet = 0
+    for sp in clean:
+        if sp.ret is not None and some_of(sp.ret) is not None:
+            continue
+        n_quiet += 1
+        ns = sp.state.get(WSTART, WSTART)
+        na = sp.state.get(MACT, MACT)
+        if ns != WSTART:
+            bad_st = ("m_window_start becomes `%s` on a path that emits nothing: the open run would later be reported "
+                      "with a start that is not its first window's" % show(ns), sp)
+        elif na != MACT and not (na[0] == "loopval" and first_fill_guard(sp.conds)):
+            bad_st = ("m_active becomes `%s` on a path that emits nothing and is not the first fill: the open run "
+                      "changes value without being closed" % show(na), sp)
+    ctx.check(P + ".W", "%s:quiet_paths" % name, bad_st is None and n_quiet >= 3,
+              "the %d non-emitting clean paths leave m_window_start and an open run's m_active unchanged" % n_quiet,
+              (bad_st[0] + " [path: %s]" % "; ".join(("" if p_ else "!") + show(t) for t, p_, _ in bad_st[1].conds[-4:]))
+              if bad_st else "fewer than 3 non-emitting clean paths found", line_of(loop))
     buffer_rules(ctx, P, which, paths)
     return paths
 
